@@ -1,9 +1,9 @@
-\* case export for replay into the real code (quick tier): every case of the 3-bit model with 4 block-content classes
+\* case export for replay into the real code (quick tier): every case of the 3-bit model with 5 block-content classes
 CONSTANTS
   W = 3
   Froms = {0,1,2,3,4,5,6,7}
   MaxLen = 3
-  NContent = 4
+  NContent = 5
   Kinds = {"size","limit","range","gap"}
 INIT Init
 NEXT Next
